@@ -23,16 +23,20 @@ CHECKS = {
          "Machine-level clauses evaluated by TLC at every leave step of every recorded behaviour (no member semantics needed), plus Sem conformance of positions and values at Peek/Pointer/Select/GreedyRange/Union nodes, over all short inputs for sampled programs and random longer ones, start offsets 0..2."),
  "C13": ("TLC trace validation at constrained nodes (Const, validators, Enum/FlagsEnum/Mapping, Error inside recovering constructs), one-byte domains exhausted", "4.C13",
          "Acceptance, value and bytes in both directions for every one-byte input and value and all label spellings, and ExplicitError never absorbed, compared by TLC with Sem."),
+ "C10": ("TLC predicates C10BitRef (native-integer reference packing) and C10.paths (pre-read vs streaming path) + trace validation of both paths against Sem/Streams", "4.C10",
+         "Bit-level regions over partitions of 8..32 bits (thorough: 64) with signed/swapped fields, Flag, Padding, nested Struct/Array and Bytewise islands, built on both implementations of the region; TLC checks the built bytes against the big-endian concatenation of two's-complement patterns, the agreement of both paths on bytes and values, and every recorded step against the RestreamedBytesIO buffer machine of Streams.tla."),
+ "C12": ("TLC predicate C12Equiv on recorded pairs (same call on both sides of each documented law and operator spelling)", "4.C12",
+         "Every law instance (widths, signedness, swapping, aliases, macros, enum classes vs keywords, display wrappers, operator spellings) is run on both sides through the real factories on all short inputs over the boundary alphabet and on in- and out-of-range values; TLC evaluates extensional equality on each recorded pair."),
+ "C14": ("TLC replay through CAM.tla (RawCopy clauses) + TLC predicates C14Verifies / C14Detects / C14SameBytes; hashes uninterpreted with logged graphs", "4.C14",
+         "RawCopy extents, offsets and data at every RawCopy leave step of every recorded behaviour (substreams, non-zero offsets); checksums built then parsed; every single-bit corruption of covered region and digest must raise ChecksumError."),
+ "C15": ("TLC trace validation against independent definitions of XOR (key cycled), bit rotation of groups, byte/bit reversal; compression codecs uninterpreted", "4.C15",
+         "Exhaustive-by-grid keys and rotation amounts x groups (sampled in quick), swapped constructs of size 1..16, four stdlib codecs; built bytes and the inner construct's view on parse are compared by TLC with the definitions in Codecs.tla."),
  "C18": ("TLC replay through CAM.tla (clause C18.path at every failing leave step, C18.path-kept) + TLC predicate C18Trunc on truncation sessions", "4.C18",
          "Every failing recorded behaviour (all truncation offsets of canonical encodings of nested named structures, every member made unbuildable in turn, random inputs) is replayed by TLC: the path equals the operation prefix plus the Renamed names on the stack where the error was created and is kept while propagating; truncation at j names the members whose recorded extent contains j."),
 }
 PENDING = {
  "C04": "check under construction in this round (compiled vs interpreted sessions; DESIGN.md 4.C04)",
- "C10": "check under construction in this round (bit-level layouts; DESIGN.md 4.C10)",
  "C11": "check under construction in this round (Expr.tla Eval/Render/Reparse; DESIGN.md 4.C11)",
- "C12": "check under construction in this round (law pairs; DESIGN.md 4.C12)",
- "C14": "check under construction in this round (RawCopy/Checksum sessions; DESIGN.md 4.C14)",
- "C15": "check under construction in this round (transform definitions; DESIGN.md 4.C15)",
  "C16": "check under construction in this round (Lazy.tla; DESIGN.md 4.C16)",
  "C17": "check under construction in this round (Session.tla; DESIGN.md 4.C17)",
  "C19": "check under construction in this round (Ksy.tla; DESIGN.md 4.C19)",
